@@ -3,7 +3,7 @@
    (events = the public call made, whether a fault point was made to raise, what the call
    returned, and the projection of the store through the Mapping API afterwards) must be
    behaviours of Keychain, with the recorded result and projection after every event.
-   Event: [a |-> "Step"|"Fail"|"Reopen", o |-> operation record, n |-> fault point,
+   Event: [a |-> "Step"|"Fail"|"Reopen", o |-> operation record, n |-> fault point, m |-> "call"|"io",
            r |-> [out, got, lt, lc], post |-> [open, tpm, ids, keys, certs, dI, dK, dC]]
    (sets are JSON arrays; a key is [id, n], a certificate [[id, n], m]).            *)
 EXTENDS Keychain, Json, IOUtils, TLCExt
@@ -34,7 +34,12 @@ PostOk == LET p == Tr[l].post IN
 WellFormed(o, S) ==
   /\ o.op \in {"NewIdentity", "TouchIdentity", "NewKey", "ImportCert", "SetDefId", "SetDefKey", "SetDefCert",
                "DelCert", "DelKey", "DelIdentity", "GetSigner", "Close"}
-  /\ (o.op = "NewKey" => o.i \in S.cur.ids /\ o.k \in FreeSlots(S, o.i))
+  /\ (o.op = "NewKey" => o.i \in S.cur.ids /\ o.k[1] = o.i
+                         /\ (o.k \in FreeSlots(S, o.i) \/ (o.by = "keyid" /\ (o.k \in S.cur.keys \/ OrphanFile(S, o.k)))))
+  /\ (o.loc = "ext" => ~S.txn)
+  /\ (o.op = "DelKey" /\ o.loc = "view" => o.k[1] \in S.cur.ids)
+  /\ (o.op = "DelCert" /\ o.loc = "view" => o.c[1] \in S.cur.keys)
+  /\ (o.op = "GetSigner" /\ o.t = "obj" => Enabled(o, S))
   /\ (o.op = "TouchIdentity" /\ o.i \notin S.cur.ids => o.k \in FreeSlots(S, o.i))
   /\ (o.op = "ImportCert" => o.k \in S.cur.keys)
   /\ (o.op = "SetDefKey" => o.k[1] \in S.cur.ids)
@@ -48,7 +53,7 @@ ResOk(o, r) == LET x == Plan(o, st).res IN
 TStep == /\ Ev("Step") /\ WellFormed(Tr[l].o, st) /\ ResOk(Tr[l].o, Tr[l].r)
          /\ Call(Tr[l].o) /\ PostOk
 TFail == /\ Ev("Fail") /\ WellFormed(Tr[l].o, st) /\ Tr[l].n \in 1..NFaults(Tr[l].o, st)
-         /\ Crash(Tr[l].o, Tr[l].n) /\ PostOk
+         /\ Crash(Tr[l].o, Tr[l].n, Tr[l].m) /\ PostOk
 TReopen == Ev("Reopen") /\ Reopen /\ PostOk
 
 TNext == TStep \/ TFail \/ TReopen
